@@ -83,6 +83,22 @@ def run(cx):
         if tr is None:
             cx.violate('I-SM3', 'cf/rounds', 'the 64-round loop `for j in 0..64` was not found', cf.loc())
         else:
+            # a precomputed table of the rotated round constants: `TAB[j]` for `T_j <<< j`, accepted after every entry of the
+            # evaluated initialiser was compared with rotl32(T_j, j mod 32) (exact, from the K-SM3 oracle constants)
+            import re as _re
+            tabs = []
+            sm3 = pa.sm3()
+            rot = lambda x, n: (((x << (n % 32)) | (x >> (32 - n % 32))) & 0xffffffff) if n % 32 else x
+            want_t = [rot(sm3.t0 if k < 16 else sm3.t16, k) for k in range(64)]
+            for v in ('a', 'e'):
+                # (a constant array is rendered by value: `arr:0x<all bytes as one little-endian integer>`)
+                m_ = _re.search(r'rotate_left\(wrapping_add\(wrapping_add\(rotate_left\(var:a@in, 12\), var:e@in\), arr:0x([0-9a-f]+)\[%s\]\), 7\)' % _re.escape(J), tr[v] or '')
+                if m_:
+                    hx = m_.group(1).rjust(512, '0')
+                    vals = [int(hx[k:k + 8], 16) for k in range(0, len(hx), 8)][::-1] if len(hx) == 512 else None
+                    if vals == want_t:
+                        tabs.append(('arr:0x%s[%s]' % (m_.group(1), J), 'rotate_left(t(%s), (%s as u32))' % (J, J)))
+                        tr[v] = tr[v].replace(*tabs[-1])
             for v in ROUND:
                 cx.add('I-SM3', 'cf/round/' + v, tr[v] == ROUND[v], 'round transfer %s\' = %s' % (v.upper(), FR.short(tr[v] or '?', 200)), cf.loc(), {'got': tr[v], 'want': ROUND[v]})
         ws = I.stores(cf, F, 'w')
@@ -97,6 +113,8 @@ def run(cx):
         cx.add('I-SM3', 'cf/loop-bounds', rngs == sorted({J16, J68, J}),
                'word loops run j = 0..16, 16..68, 0..64 (index ranges %s)' % rngs, cf.loc())
         ff = I.stores(cf, F, 'v_i', through_deref=True)
+        for t_ in (tabs if tr is not None else []):
+            ff = [(a_, b_.replace(*t_)) for a_, b_ in ff]
         want = [(str(k), 'BitXor($v_i[%d], phi($v_i[%d] | %s))' % (k, k, ROUND['abcdefgh'[k]])) for k in range(8)]
         cx.add('I-SM3', 'cf/feed-forward', ff == want, 'V_{i+1} = ABCDEFGH xor V_i, word by word', cf.loc())
         init = {}
@@ -115,18 +133,56 @@ def run(cx):
     got = [(a, b.replace(V, 'V').replace('IV[', 'V[')) for a, b in out]
     want = [('MulWithOverflow(%s, 4).0' % E8, '(Shr(V[%s]#{E|call:cf}, 24) as u8)' % E8), ('AddWithOverflow(MulWithOverflow(%s, 4).0, 1).0' % E8, '(Shr(V[%s]#{E|call:cf}, 16) as u8)' % E8),
             ('AddWithOverflow(MulWithOverflow(%s, 4).0, 2).0' % E8, '(Shr(V[%s]#{E|call:cf}, 8) as u8)' % E8), ('AddWithOverflow(MulWithOverflow(%s, 4).0, 3).0' % E8, '(V[%s]#{E|call:cf} as u8)' % E8)]
-    cx.add('I-SM3', 'sm3_hash/output', got == want, 'digest = big-endian bytes of V[0..8]', h.loc(), {'got': out})
+    out_ok = got == want
+    from ..builder import root_local as _rl
+    def owner(b_, k_):
+        t_ = h.blocks[b_]['term']
+        if t_['args'][k_]['k'] not in ('copy', 'move'):
+            return None
+        n_ = len(h.blocks[b_]['stmts'])
+        r_ = _rl(P, t_['args'][k_], b_, n_)
+        nm_ = h.locals[r_].get('name') if r_ is not None else None
+        if nm_ in ('output', 'b_i'):
+            return nm_
+        for x_ in P.operand(t_['args'][k_], b_, n_).walk():
+            if x_.k == 'call' and x_.name and last(x_.name) in ('chunks_exact_mut', 'chunks_mut', 'iter_mut') and x_.site and x_.site[1] == -1:
+                tb_ = h.blocks[x_.site[0]]['term']
+                if tb_['args'] and tb_['args'][0]['k'] in ('copy', 'move'):
+                    r2 = _rl(P, tb_['args'][0], x_.site[0], len(h.blocks[x_.site[0]]['stmts']))
+                    return h.locals[r2].get('name') if r2 is not None else None
+        return nm_
+    copies = [(b_, owner(b_, 0), FR.arg_canon(h, P, cn, b_, 0), FR.arg_canon(h, P, cn, b_, 1).replace(V, 'V').replace('IV[', 'V[')) for b_ in FR.calls_of(h, 'copy_from_slice')]
+    if not out_ok and not out:
+        # word-wise: output[4i..4i+4] = V[i].to_be_bytes(), V read after the last cf call
+        R4 = 'Range::Range{MulWithOverflow(%s, 4).0, AddWithOverflow(MulWithOverflow(%s, 4).0, 4).0}' % (E8, E8)
+        oc = [(d_, s_) for _, o_, d_, s_ in copies if o_ == 'output']
+        out_ok = len(oc) == 1 and oc[0][0].endswith(', %s)' % R4) and oc[0][0].startswith(('index(', 'index_mut(')) and oc[0][1] == 'to_be_bytes:u32(V[%s]#{E|call:cf})' % E8
+    cx.add('I-SM3', 'sm3_hash/output', out_ok, 'digest = big-endian bytes of V[0..8], read after the last block was compressed', h.loc(), {'got': out})
     CG = 'var:count_group@in'
     rng = 'Range::Range{MulWithOverflow(%s, 64).0, AddWithOverflow(MulWithOverflow(%s, 64).0, 64).0}' % (CG, CG)
+    PAD = 'unwrap(pad($msg))'
     bi = I.stores(h, F, 'b_i')
-    cx.add('I-SM3', 'sm3_hash/blocks', bi == [('SubWithOverflow(each(%s), MulWithOverflow(%s, 64).0).0' % (rng, CG), 'index(unwrap(pad($msg)), each(%s))' % rng)],
-           'block i is bytes 64i..64i+64 of the padded message, in order', h.loc())
     cfs = FR.calls_of(h, 'gm_sm3::cf')
-    ok = len(cfs) == 1 and FR.arg_canon(h, P, cn, cfs[0], 1).startswith('var:b_i')
+    a1 = FR.arg_canon(h, P, cn, cfs[0], 1) if len(cfs) == 1 else ''
     a0 = FR.arg_canon(h, P, cn, cfs[0], 0) if cfs else ''
-    cx.add('I-SM3', 'sm3_hash/chain', ok and a0 in ('IV', 'var:v_i=IV', 'var:v_i@in'), 'cf is applied to the chaining value (initialised from IV) and each block: cf(%s, ..)' % a0, h.loc())
     sw = [(p.kind, sorted(cn.c(a) for a in p.args)) for _, p, _, _ in G.bool_switches(h, P)]
-    cx.add('I-SM3', 'sm3_hash/termination', ('eq', sorted(['MulWithOverflow(%s, 64).0' % CG, 'len(unwrap(pad($msg)))'])) in sw, 'iteration stops exactly when 64*count == padded length', h.loc())
+    counted = ('eq', sorted(['MulWithOverflow(%s, 64).0' % CG, 'len(%s)' % PAD])) in sw
+    # three ways to hand block i to cf, each with the way the blocks are enumerated:
+    #  A  b_i[j - 64c] = padded[j] for j in 64c..64c+64, c counted up until 64c == len
+    #  B  for block in padded.chunks_exact(64): b_i.copy_from_slice(block)   (the chunks are the blocks, in order; no
+    #     remainder because the padded length is a multiple of 64: L-LEN64)
+    #  C  cf(.., padded[64c..64c+64].try_into().unwrap()), c counted as in A
+    EC = 'each(Range::Range{0, Div(len(%s), 64)})' % PAD
+    chunk = 'index(%s, Range::Range{MulWithOverflow(%s, 64).0, AddWithOverflow(MulWithOverflow(%s, 64).0, 64).0})' % (PAD, EC, EC)
+    formA = bi == [('SubWithOverflow(each(%s), MulWithOverflow(%s, 64).0).0' % (rng, CG), 'index(%s, each(%s))' % (PAD, rng))] and a1.startswith('var:b_i')
+    bcop = [(b_, s_) for b_, o_, d_, s_ in copies if o_ == 'b_i']
+    dom = h.dominators()
+    formB = not bi and len(bcop) == 1 and bcop[0][1] == chunk and len(cfs) == 1 and bcop[0][0] in dom.get(cfs[0], ()) and \
+        any(bcop[0][0] in c_ and cfs[0] in c_ for c_ in h.sccs()) and owner(cfs[0], 1) == 'b_i'
+    formC = not bi and a1 == 'unwrap(try_into(index(%s, %s)))' % (PAD, rng)
+    cx.add('I-SM3', 'sm3_hash/blocks', formA or formB or formC, 'block i is bytes 64i..64i+64 of the padded message, in order (%s)' % ('copied byte by byte' if formA else 'chunks_exact(64) copied into the block buffer' if formB else 'borrowed in place' if formC else 'not recognised'), h.loc())
+    cx.add('I-SM3', 'sm3_hash/chain', len(cfs) == 1 and (formA or formB or formC) and a0 in ('IV', 'var:v_i=IV', 'var:v_i@in'), 'cf is applied to the chaining value (initialised from IV) and each block: cf(%s, ..)' % a0, h.loc())
+    cx.add('I-SM3', 'sm3_hash/termination', counted if not formB else not [x for x in sw if x[0] != 'discr'], 'iteration stops exactly when 64*count == padded length (or: one iteration per 64-byte chunk, no other exit)', h.loc())
     # ---- padding
     pd = cx.fn('gm_sm3::pad', 'L-LEN64')
     if pd is not None:
